@@ -105,6 +105,19 @@ theorem inv_run (h : Nat) (ops : List Op) : Inv (run { historySize := h } ops) :
     | cons op rest ih => intro s hs; exact ih _ (inv_step s op hs)
   exact this _ (inv_init h)
 
+/-- the collector never finds a waiting record missing from `alive` (its `remove(..).unwrap()` cannot panic), after
+    EVERY history of create / drop / tick operations — reading through the API is not an operation: it leaves the state
+    as it is -/
+theorem collector_never_panics (h : Nat) (ops : List Op) : gcTickSafe (run { historySize := h } ops) = true := by
+  have hi := inv_run h ops
+  simp only [gcTickSafe, List.all_eq_true, List.contains_eq_mem, decide_eq_true_eq]
+  exact hi.gc_sub
+
+/-- a handler that prunes dead entries while it lists the live ones (seeded change C16c) breaks exactly that: after
+    create, drop, GET /api/live the collector's tick panics -/
+theorem pruning_reader_kills_collector :
+    gcTickSafe (apiLivePruning (run { historySize := 3 } [.create, .drop 0])) = false := by decide
+
 /-- **distinct ids**: the id handed to a new connection was never used before (not live, not waiting, not logged) -/
 theorem ids_distinct (h : Nat) (ops : List Op) :
     (create (run { historySize := h } ops)).2 ∉ (run { historySize := h } ops).alive ∧
